@@ -72,6 +72,10 @@ impl PrintStyles {
       ret.push('\n');
       write!(ret, "{}", self.matched.paint(line))?;
     }
+    // `lines` drops a final line break: keep it, the text after the match starts on the next line
+    if matched.ends_with('\n') {
+      ret.push('\n');
+    }
     Ok(())
   }
 
